@@ -641,7 +641,7 @@ impl Check for C20 {
     }
 
     fn rule(&self) -> String {
-        "Per episode one target configuration of a packet builder (SR, RR, SDES, BYE, APP, Unknown, feedback x FCI; valid and invalid), of a compound of 2-4 packets, or of a chunk / item / stand-alone FCI builder, and one tape-driven call history reaching it: independent setters interleaved in a seeded order, 0-3 stale overwritten calls per setter, a default-valued setter left out, list adds in order interleaved anywhere, NACK numbers shuffled and re-added, FIR SSRCs re-added with stale sequences first, RPSI payload_type / native_data interleaved, and at each position a seeded variant (&str | String | Cow borrowed | Cow owned; reason vs reason_owned; prefix(&[u8] | Vec); into_owned before / after prefix; add_item vs add_item_owned; native_data vs native_data_owned; builder(&fci) vs builder_owned(fci); bare vs PacketBuilder::from vs one-member CompoundBuilder, each also as a non-last member of an outer compound; X::builder(..) vs XBuilder::new(..) / ::default()), optionally with size queries, scratch writes and Debug renderings of the unfinished builders between the calls, built under a different FIR hash key than the canonical build. Lists (report blocks, sources, chunks, items, SLI runs, compound members) are also compared with the concatenation of one-element images in call order. The history is first applied to the reference model and must give the target back. evaluations = (canonical, history) build pairs. Non-trivial = the history differs from the canonical one in at least one choice; distinct = distinct history shapes (builder type, FCI kind and owned/borrowed, multiset of op kinds with the position class and argument form of each owned conversion, first and last op kind, wrapper).".into()
+        "Per episode one target configuration of a packet builder (SR, RR, SDES, BYE, APP, Unknown, feedback x FCI; valid and invalid), of a compound of 2-4 packets, or of a chunk / item / stand-alone FCI builder, and one tape-driven call history reaching it: independent setters interleaved in a seeded order, 0-3 stale overwritten calls per setter, a default-valued setter left out, list adds in order interleaved anywhere, NACK numbers shuffled and re-added, FIR SSRCs re-added with stale sequences first, RPSI payload_type / native_data interleaved, and at each position a seeded variant (&str | String | Cow borrowed | Cow owned; reason vs reason_owned; prefix(&[u8] | Vec); into_owned before / after prefix; add_item vs add_item_owned; native_data vs native_data_owned; builder(&fci) vs builder_owned(fci); bare vs PacketBuilder::from vs one-member CompoundBuilder, each also as a non-last member of an outer compound; X::builder(..) vs XBuilder::new(..) / ::default()), optionally with size queries, scratch writes and Debug renderings of the unfinished builders between the calls, built under a different FIR hash key than the canonical build. Lists (report blocks, sources, chunks, items, SLI runs, compound members) are also compared with the concatenation of one-element images in call order. The history is first applied to the reference model and must give the target back. evaluations = (canonical, history) build pairs. Non-trivial = the history differs from the canonical one in at least one choice; distinct = distinct history shapes (builder type, FCI kind and owned/borrowed, multiset of op kinds with the position class and argument form of each owned conversion, first and last op kind, wrapper). In a quarter of the histories a bystander (a sibling builder of the same type and outer shape, different size) is alive on the same thread and its calculate_size / write_into calls are interleaved with those of the observed builder; write_into_unchecked into exactly the announced size is compared for every shape.".into()
     }
     fn assumptions(&self) -> Vec<String> {
         vec![
